@@ -35,6 +35,7 @@ import subprocess
 import time
 
 import vlib
+import shaper_cat as sc
 
 LEVEL = "model_checking"
 MANIFEST = {
@@ -188,6 +189,36 @@ def _generate(ctx):
 
 
 # --------------------------------------------------------------------------- harness runs
+def _catalog(ctx):
+    """Degenerate and over-budget lookup lists as fonts: the malformed and ctxnest families of lib/shaper_cat.py
+    (rules with 70 nested actions, out-of-range indices, self reference, classes outside their tables) plus rules
+    that exhaust the action budget while an outer rule still has pending actions.  Ids are positions in the full
+    list, so that a replay finds the same font in either tier."""
+    path = os.path.join(ctx.scratch, "c16-catalog.json")
+    if os.path.exists(path):
+        return path
+    cases = sc.build(["malformed", "ctxnest"])
+    L, C, R, S, M = sc.lookup, sc.ctx, sc.rule, sc.single, sc.multi
+    extra = []
+    for fmt in (1, 2, 3):
+        for chain in (False, True):
+            # outer rule with two actions; the first one runs into a rule with 70 actions
+            extra.append([L([C([R([{1}, {2}], [(0, 2), (1, 3)])], fmt=fmt, chain=chain)]),
+                          L([C([R([{1}], [(0, 4)] * 70)], fmt=fmt)]), L([S({2: 5})]), L([S({1: 6, 6: 1})])])
+            # three levels, the innermost exhausts the budget, two outer rules have pending actions
+            extra.append([L([C([R([{1}, {2}, {1}], [(0, 2), (1, 5), (2, 5)])], fmt=fmt, chain=chain)]),
+                          L([C([R([{1}], [(0, 3), (0, 5)])], fmt=fmt)]),
+                          L([C([R([{1}], [(0, 4)] * 66)], fmt=fmt)]), L([S({1: 6, 6: 1})]), L([S({2: 5, 1: 6})])])
+    for ll in extra:
+        cases.append({"id": 0, "family": "c16-budget-outer", "order": [1], "gdef": sc.GDEF_FULL, "ll": ll, "inputs": None})
+    for i, c in enumerate(cases):
+        c["id"] = i + 1
+    if ctx.quick() and not ctx.replay_path:
+        cases = [c for c in cases if c["family"] != "ctxnest" or c["id"] % 6 == 0]
+    json.dump(cases, open(path, "w"))
+    return path
+
+
 def _bytes_dir(ctx):
     """Files of the read-back fonts (written by `c16 fonts`), so that a cold process only reads."""
     d = os.path.join(ctx.scratch, "c16-bytes")
@@ -200,6 +231,7 @@ def _harness(ctx, argv, env=None, timeout=900):
     e["VERIF_SEED"] = str(ctx.seed)
     e["VERIF_TIER"] = ctx.tier
     e["C16_BYTES"] = _bytes_dir(ctx)
+    e["C16_CATALOG"] = _catalog(ctx)
     e.update(env or {})
     try:
         p = subprocess.run(argv, stdout=subprocess.PIPE, stderr=subprocess.PIPE, env=e, timeout=timeout)
@@ -563,12 +595,15 @@ def run(ctx):
                              % (f["id"], f["probes_seen"], f["probes"], f["probes_missed"]))
     if not any(f["pkg_alias"] for f in fonts):
         ctx.notes.append("no font of the corpus aliases post.macRoman")
-    ctx.cov["fonts"] = [{k: f[k] for k in ("id", "desc", "glyphs", "nodes", "probes", "pkg_alias")} for f in fonts]
+    ctx.cov["fonts"] = [{k: f[k] for k in ("id", "desc", "glyphs", "nodes", "probes", "pkg_alias")} for f in fonts
+                        if not f["id"].startswith("cat")]
+    ctx.cov["catalogue_fonts"] = collections.Counter(f["desc"].split('"')[1] for f in fonts if f["id"].startswith("cat"))
     ctx.cov["fingerprint_probes_seen"] = sum(f["probes_seen"] for f in fonts)
 
     # schedules from TLC, dealt to the fonts
     general, hammer, pairs = _generate(ctx)
-    ids = [f["id"] for f in fonts]
+    ids = [f["id"] for f in fonts if not f["id"].startswith("cat")]
+    cat_ids = [f["id"] for f in fonts if f["id"].startswith("cat")]
     nid = [0]
 
     def adopt(c, font, **kw):
@@ -612,6 +647,15 @@ def run(ctx):
                 coldp.append((f, op, [adopt(hs[(k + 2) % len(hs)], f, fresh=True, cold=True)]))
     if missing:
         raise vlib.Infra("no hammer schedule generated for operations %s" % sorted(missing))
+    # catalogue fonts (degenerate / over-budget lookup lists): footprints of every operation, and a short race run
+    # with two random schedules and the layout-table operations hammered
+    small = [c for c in general if c["n"] <= 4]
+    for i, f in enumerate(cat_ids):
+        for j in range(2):
+            warm[f].append(adopt(small[(2 * i + j) % len(small)], f, fresh=j == 1))
+        for op in ("Layout", "GsubApply", "GposApply", "ExplainGsub", "ExplainGpos", "Write"):
+            if op in st.fonts[f]["ops"]:
+                warm[f].append(adopt(hammer[op][i % len(hammer[op])], f, fresh=True))
     cases = list(st.cases.values())
     ctx.sample({"tlc_schedule": {k: v for k, v in cases[0].items()}})
 
@@ -622,6 +666,9 @@ def run(ctx):
     for f in ids:
         jobs.append({"key": "%s/v1" % f, "font": f, "bin": st.bin, "cases": plain[f], "reps": reps1, "race": False, "cold": False})
         jobs.append({"key": "%s/v2" % f, "font": f, "bin": st.bin_race, "cases": warm[f], "reps": 3, "race": True, "cold": False})
+    for f in cat_ids:
+        jobs.append({"key": "%s/v1" % f, "font": f, "bin": st.bin, "cases": [], "reps": 2, "race": False, "cold": False})
+        jobs.append({"key": "%s/v2" % f, "font": f, "bin": st.bin_race, "cases": warm[f], "reps": 2, "race": True, "cold": False})
     for f, op, cs in coldp:
         jobs.append({"key": "%s/c-%s" % (f, op), "font": f, "bin": st.bin_race, "cases": cs, "reps": 2, "race": True, "cold": True})
     for j in jobs:
@@ -695,7 +742,8 @@ def run(ctx):
     ctx.cov["sequential_calls_fingerprinted"] = seq
     ctx.cov["overlapping_operation_pairs"] = len(pairs)
     ctx.cov["goroutines"] = sorted(set(c["n"] for c in cases))
-    ctx.cov["processes"] = {"footprint_and_hammer_plain": len(ids), "race_warm": len(ids), "race_cold": len(coldp)}
+    ctx.cov["processes"] = {"footprint_and_hammer_plain": len(ids), "race_warm": len(ids), "race_cold": len(coldp),
+                            "catalogue_footprint": len(cat_ids), "catalogue_race": len(cat_ids)}
     ctx.cov["hammer_cases"] = sum(len(v) for v in plain.values())
     ctx.cov["cold_cases"] = len(coldp)
     ctx.cov["race_reports"] = nraces
